@@ -22,6 +22,7 @@ var intTypes = map[string]bool{"int8": true, "int16": true, "int32": true, "int6
 var signedTypes = map[string]bool{"int8": true, "int16": true, "int32": true, "int64": true, "int": true}
 
 const iter64Head = `{ var l = b.Len() if l == 0 { return 0 } var ( c = 0 cursor = pos dirIter = sparseMagic.Load() w = b ) if l > int(dirIter) { `
+
 func lit(s string) string { return regexp.QuoteMeta(s) }
 
 var iter64Dense = lit(" { if w&u64Tab[i] != 0 { if c >= n || c >= l { break } s[cursor] = ") + `(i|\w+\(i\))` +
@@ -176,7 +177,9 @@ func (s *Synth) AddConsts(f *gofacts.File) {
 
 func (s *Synth) AddFunc(src string) { s.funcs = append(s.funcs, src) }
 
-func (s *Synth) fail(format string, a ...interface{}) { s.Errs = append(s.Errs, fmt.Sprintf(format, a...)) }
+func (s *Synth) fail(format string, a ...interface{}) {
+	s.Errs = append(s.Errs, fmt.Sprintf(format, a...))
+}
 
 // Translate writes the synthetic package to a scratch directory and runs go2lean over the named kernels.
 func (s *Synth) Translate(keys ...string) (string, map[string]error) {
